@@ -1,6 +1,7 @@
 import EqsigVerif.Model.Frequency
 import EqsigVerif.Lemmas.Cplx
 import EqsigVerif.Lemmas.Frequency
+import EqsigVerif.Lemmas.CplxC
 /-!
 # C06 — Fourier amplitude spectrum is `dt ×` DFT of the zero-padded record, on the stated grid
 
@@ -260,5 +261,67 @@ attribute [local instance] ratCxLike
 example : maxFaPeriod (β := ℚ) [1, -3, 2, 3] [0, 1/2, 1, 3/2] = .ok (some 2) := by decide +kernel
 example : maxFaPeriod (β := ℚ) [5, -3, 2] [0, 1/2, 1] = .ok none := by decide +kernel
 end MaxPeriodExample
+
+/-! ## C06.b, C06.f — over Mathlib's `ℂ` with the twiddles `twC N m = e^{-2πi m/N}` -/
+section OverC
+open Complex
+
+/-- **C06.b** (`T` + external assumption **FftIsDft**: `np.fft.fft(values, n=N)` is the defining sum
+`Cplx.dft twC values N`) the spectrum has `⌊N/2⌋` bins and
+`fas[k] = dt · Σ_{j<N} x_j e^{-2πi jk/N}` for `k < ⌊N/2⌋`, where `x_j = x.getD j 0` is the record
+zero-padded (or truncated, if `N < npts`) to `N` samples. -/
+theorem fas_spec (x : List ℂ) (dt : ℝ) (N : ℕ) :
+    (fasOf twC x dt N).length = N / 2 ∧
+    ∀ k (hk : k < N / 2), (fasOf twC x dt N)[k]'(by simpa using hk)
+      = dt * ∑ j ∈ range N, x.getD j 0 * cexp (-(2 * Real.pi * I * j * k / N)) := by
+  refine ⟨length_fasOf twC x dt N, fun k hk => ?_⟩
+  have hN : N ≠ 0 := by omega
+  rw [fasOf_getElem twC x dt N k hk, cxlike_ofReal, mul_comm]
+  congr 1
+  apply Finset.sum_congr rfl
+  intro j _
+  rw [twC_mul_mod N j k hN]
+
+/-- **C06.b** at the object level: `Signal.fa_spectrum` (default padding) of a record with `npts ≥ 1`. -/
+theorem signal_fas_spec (x : List ℂ) (dt : ℝ) (hx : 1 ≤ x.length) :
+    ∃ fas freqs, signalGenFaSpectrum twC x dt = .ok (fas, freqs) ∧
+      fas.length = nextPow2 x.length / 2 ∧
+      ∀ k (hk : k < fas.length), fas[k] = dt * ∑ j ∈ range (nextPow2 x.length),
+        x.getD j 0 * cexp (-(2 * Real.pi * I * j * k / (nextPow2 x.length : ℕ))) := by
+  have hN : nFactor x.length 0 none = .ok (nextPow2 x.length) := by
+    simpa using (nFactor_spec x.length 0 hx).1
+  refine ⟨fasOf twC x dt (nextPow2 x.length), freqsOf dt (nextPow2 x.length), ?_, by simp, ?_⟩
+  · exact ((entry_points_core twC x dt hx).1 0 none _ hN)
+  · intro k hk
+    exact (fas_spec x dt (nextPow2 x.length)).2 k (by simpa using hk)
+
+example : nFactor ([1, 2, 3] : List ℂ).length 0 none = .ok 4 := by decide +kernel
+
+/-- **C06.f** (stretch, proved) Parseval: `Σ_{k<N} |X_k|² = N · Σ_{j<N} |x_j|²` for the full transform
+`X = fft(x, N)` of the record padded/truncated to `N` (orthogonality of the `N`-th roots of unity). -/
+theorem parseval (x : List ℂ) (N : ℕ) :
+    ∑ k ∈ range N, Complex.normSq ((dft twC x N).getD k 0)
+      = N * ∑ j ∈ range N, Complex.normSq (x.getD j 0) :=
+  EqsigVerif.Cplx.parseval x N
+
+/-- **C06.f** one-sided form: for a REAL record the spectrum is Hermitian, `X_{N−k} = conj X_k`, hence
+`|X_{N−k}| = |X_k|` (`0 < k < N`): the reported bins `k < N/2` carry all amplitudes except Nyquist. -/
+theorem hermitian_of_real (x : List ℂ) (N k : ℕ) (hk0 : 0 < k) (hk : k < N)
+    (hx : ∀ j, starRingEnd ℂ (x.getD j 0) = x.getD j 0) :
+    (dft twC x N).getD (N - k) 0 = starRingEnd ℂ ((dft twC x N).getD k 0) ∧
+    Complex.normSq ((dft twC x N).getD (N - k) 0) = Complex.normSq ((dft twC x N).getD k 0) := by
+  have h := dftC_conj_of_real x N k hk0 hk hx
+  exact ⟨h.symm, by rw [← h, Complex.normSq_conj]⟩
+
+/-- **C06.f / C06.g ingredient** the inverse transform undoes the transform:
+`ifft(fft(x, N)) = x` padded/truncated to `N`. -/
+theorem idft_dft (x : List ℂ) (N : ℕ) : idft twC (dft twC x N) N = padTo N x :=
+  EqsigVerif.Cplx.idft_dft x N
+
+example : ∀ j, starRingEnd ℂ (([1, 2, 3] : List ℂ).getD j 0) = ([1, 2, 3] : List ℂ).getD j 0 := by
+  intro j
+  rcases j with _ | _ | _ | j <;> simp [map_ofNat]
+
+end OverC
 
 end EqsigVerif.Props.C06
